@@ -195,7 +195,8 @@ def nameErr (cfg : TreeCfg) (name : String) : List Err :=
 def evalCreate (cfg : TreeCfg) (t : TNode) (cwd : List String) (path : String) (wantDir : Bool) : Outcome :=
   match resolveParent cfg t cwd path with
   | .error e => failWith t e
-  | .ok (.dot none) => failWith t (nameErr cfg ((splitPath path).getLast?.getD ""))
+  -- `.`/`..` can never be created: in the root (where they do not exist) the call is invalid input
+  | .ok (.dot none) => failWith t [.invalidInput]
   | .ok (.dot (some (p, _))) => if wantDir then { tree := t, target := p } else failWith t [.invalidInput]
   | .ok (.entry parent _ (some (nm, c))) =>
     if c.isDir == wantDir then { tree := t, target := parent ++ [nm] } else failWith t [.invalidInput]
@@ -221,7 +222,7 @@ def evalList (cfg : TreeCfg) (t : TNode) (cwd : List String) : Outcome :=
 def evalRemove (cfg : TreeCfg) (t : TNode) (cwd : List String) (path : String) : Outcome :=
   match resolveParent cfg t cwd path with
   | .error e => failWith t e
-  | .ok (.dot none) => failWith t [.notFound, .invalidInput]
+  | .ok (.dot none) => failWith t [.invalidInput]
   | .ok (.dot (some _)) => failWith t [.invalidInput]
   | .ok (.entry _ _ none) => failWith t [.notFound]
   | .ok (.entry parent _ (some (nm, c))) =>
@@ -239,15 +240,15 @@ def evalRename (cfg : TreeCfg) (t : TNode) (cwd : List String) (src : String) (d
   let srcR : Except (List Err) (List String × String × TNode) :=
     match resolveParent cfg t cwd src with
     | .error e => .error e
-    | .ok (.dot none) => .error [.notFound, .invalidInput]
+    | .ok (.dot none) => .error [.invalidInput]
     | .ok (.dot (some _)) => .error [.invalidInput]
     | .ok (.entry _ _ none) => .error [.notFound]
     | .ok (.entry parent _ (some (nm, c))) => .ok (parent, nm, c)
   let dstR : Except (List Err) (List String × String × Option String) :=
     match resolveParent cfg t dcwd dst with
     | .error e => .error e
-    | .ok (.dot none) => .error (nameErr cfg ((splitPath dst).getLast?.getD ""))
-    | .ok (.dot (some _)) => .error [.alreadyExists]
+    | .ok (.dot none) => .error [.invalidInput]
+    | .ok (.dot (some _)) => .error [.invalidInput]
     | .ok (.entry parent given none) =>
       if given == "" then .error (nameErr cfg "")
       else match cfg.validName given with
